@@ -270,6 +270,8 @@ class NF:
             props = s.get("properties") or {}
             ap = s.get("additionalProperties")
             n = {"k": "object", "null": null}
+            if isinstance(s.get("type"), list) and "null" in s["type"]:
+                n["type_list_null"] = True  # stays when a union hoists the null flag
             n["props"] = {nm: self.nf(ps, depth + 1) for nm, ps in props.items()}
             n["required"] = sorted(s.get("required", []))
             if s.get("x-allof-inherited-required"):
